@@ -1446,6 +1446,17 @@ Tokens""")]),
          """        value = value[1:-1]""", """        value = value.strip(value[0])""")]),
     dict(id="setvalue-neutral-slice-by-length", kind=N, props=["C06", "C02"], expect="silent", edits=[("ast_utils.py",
          """        value = value[1:-1]""", """        value = value[1 : len(value) - 1]""")]),
+    # ---- DOC-ALL-LINES continuation clause (C18, C04)
+    dict(id="docalllines-continuation-only-behind-text", kind=B, props=["C18", "C04"], expect="DOC-ALL-LINES", edits=[("emitter_utils.py",
+         """                        lambda line: not line.lstrip().startswith(":"), doc_lines[1:]
+                    ),""", """                        lambda line: not line.lstrip().startswith(":"),
+                        doc_lines[1:] if doc_lines[0].partition(",")[2].strip() else (),
+                    ),""")]),
+    dict(id="docalllines-neutral-continuation-under-length-test", kind=N, props=["C18", "C04"], expect="silent", edits=[("emitter_utils.py",
+         """                        lambda line: not line.lstrip().startswith(":"), doc_lines[1:]
+                    ),""", """                        lambda line: not line.lstrip().startswith(":"),
+                        doc_lines[1:] if len(doc_lines) > 1 else (),
+                    ),""")]),
     # ---- PARAM-KEPT (C07, C03)
     dict(id="paramkept-return-type-popped-in-merge", kind=B, props=["C07", "C03"], expect="PARAM-KEPT", edits=[("parser_utils.py",
          """    if "return_type" not in (target.get("returns") or iter(())):""",
